@@ -342,6 +342,10 @@ def corr_run(ctx, mod):
     except Hang as exc:
         ctx.violation(f'{mod.__name__}/did-not-terminate', f'{exc}: an implementation call driven by {mod.__name__} does not return on this tree',
                       dict(note=str(exc), last_samples=ctx.samples[-2:]))
+    except BuildError as exc:
+        # the model of this layer does not build against the current source (reported by check.py as a broken tie);
+        # the rest of the check -- the oracle pass on the implementation -- still runs and looks for a failing input
+        ctx.model_unavailable = ctx.model_unavailable or str(exc)[:2000]
 
 
 def corr_modules(ctx, spec, names):
@@ -362,12 +366,24 @@ def as_text(v):
 
 
 class Runner:
-    def __init__(self, area):
+    def __init__(self, area, stale_ok=False):
         self.area = area
+        self.stale = None
         with Lock():
             translate.run(gen_needed(os.path.join(area, 'Run.v')))
             gen_makefile()
-            self.exe = build_runner(area)
+            try:
+                self.exe = build_runner(area)
+            except BuildError as exc:
+                # A SPECIFICATION-level runner (the FAT reader used as an oracle) that no longer builds against the
+                # changed source: keep using the last one that was built -- the specification does not change because
+                # the code did.  The broken build is reported separately; this only keeps the search for a failing
+                # input alive.
+                exe = os.path.join(RUNNER, area.lower(), 'modelrun')
+                if not (stale_ok and os.path.exists(exe)):
+                    raise
+                self.exe = exe
+                self.stale = str(exc)[:500]
         self.p = None
         self.calls = 0
 
@@ -473,7 +489,10 @@ class Ctx:
 
     def runner(self, area):
         if area not in self.runners:
-            self.runners[area] = Runner(area)
+            # the FAT specification reader is an oracle: a stale build of it is still the specification
+            self.runners[area] = Runner(area, stale_ok=(area == 'Fat'))
+            if self.runners[area].stale:
+                self.model_unavailable = 'Fat (specification reader) rebuilt from the last buildable tree: ' + self.runners[area].stale
         return self.runners[area]
 
     def try_runner(self, area):
